@@ -152,7 +152,10 @@ class AProg(k2.Prog):
         def fix(m):
             cb = int(m.group(2))
             return m.group(0) + (":%d" % gates[cb] if cb in gates else "")
-        return re.sub(r"(init|map|andThen|then|inspect|orElse|mapErr):(\d+):(?:ok|fail|panic)=-?\d+", fix, w)
+        w = re.sub(r"(init|map|andThen|then|inspect|orElse|mapErr):(\d+):(?:ok|fail|panic)=-?\d+", fix, w)
+        if self.handler and self.handler.get("gate"):
+            w += ";hg %d" % self.handler["gate"]
+        return w
 
     def handler_src(self):
         h = self.handler
@@ -163,7 +166,11 @@ class AProg(k2.Prog):
         fn = "hcallr" if h["kind"] == "and_then" else "hcall"
         body = "%s(%d, %s, %s)" % (fn, h["id"] + self.base, shown, self.out_src(h["out"]))
         if h["kind"] in ("then", "and_then"):
-            body = "ready(%s)" % body          # the value the handler returns is awaited
+            if h.get("gate"):
+                # the handler runs when it is called; the future it returns waits for a gate before it yields the value
+                body = "{ let __hr = %s; async move { gate(%d).await; __hr } }" % (body, h["gate"] + self.base)
+            else:
+                body = "ready(%s)" % body          # the value the handler returns is awaited
         clo = "|%s| %s" % (args, body)
         if h.get("block"):
             clo = "{ hdef(%d, %s); %s }" % (h["id"] + self.base, self.out_src(h.get("def_out", ("ok", 0))), clo)
@@ -210,6 +217,11 @@ def gen_async(rng, pid, kind, **kw):
                 gid += 1
                 op.agate = 500 + gid
                 gates.append(op.agate)
+    # the future an async `then` / `and_then` handler returns may wait for a gate of its own
+    if p.handler and p.handler["kind"] in ("then", "and_then") and rng.chance(1, 2):
+        gid += 1
+        p.handler["gate"] = 500 + gid
+        gates.append(p.handler["gate"])
     # opening order: a random permutation, split into batches, with a few spurious polls (empty batches)
     order = rng.shuffle(gates)
     sched = []
